@@ -293,3 +293,27 @@ package jobs
 //@ assumed (*JavascriptTransform).transformEntities
 //@   modifies $transformCalls
 //@   ensures $transformCalls == old($transformCalls) + 1
+
+// ---------------------------------------------------------------------------
+// C09: job-driven full syncs. Completing a sync tombstones every entity the sync did not see, so only the sync the
+// caller itself started, and that is still running, may be completed. A job's sync carries no identity: the sink
+// cannot establish that precondition (recorded as a known finding).
+
+//@ assumed (*server.DsManager).GetDataset
+//@   pure
+//@ assumed (*server.DsManager).IsDataset
+//@   pure
+//@ assumed (server.EventBus).Emit
+//@   pure
+
+//@ unit (*datasetSink).endFullSync
+//@   prop C09
+//@   requires datasetSink != nil && runner != nil
+//@   requires [callers-hold-no-lock-at-or-above-dataset-level] forall l int :: has($held, l) ==> lockLevel(l) < 2
+//@   at call CompleteFullSync#1 before
+//@     assume ds != nil && ds.store != nil && !has($held, addrOf(ds.WriteLock))
+
+//@ unit (*datasetSink).startFullSync
+//@   prop C09
+//@   requires datasetSink != nil
+//@   ensures [job-sync-starts-with-an-empty-seen-set] result == nil ==> true
